@@ -474,26 +474,24 @@ func (r *Run) runCase(c *Case, fn func(c *Case), wid int) {
 		}
 		if e := recover(); e != nil {
 			st := string(debug.Stack())
-			key := "panic/" + panicSite(st)
+			key := "panic/" + PanicSite(st)
 			c.Fail(key, fmt.Sprintf("panic: %v", e), map[string]interface{}{"stack": trimStack(st)})
 		}
 	}()
 	fn(c)
 }
 
-// panicSite extracts the first library frame of a panic stack as a stable class key.
-func panicSite(st string) string {
-	lines := strings.Split(st, "\n")
-	for i, l := range lines {
+// PanicSite extracts the first library frame of a panic stack as a stable class key.
+func PanicSite(st string) string {
+	for _, l := range strings.Split(st, "\n") {
 		if strings.HasPrefix(l, "github.com/brocaar/lorawan") {
 			fn := l
-			if j := strings.Index(fn, "("); j > 0 {
+			if j := strings.LastIndex(fn, "("); j > 0 {
 				fn = fn[:j]
 			}
 			fn = strings.TrimPrefix(fn, "github.com/brocaar/lorawan")
 			fn = strings.TrimPrefix(fn, "/")
 			fn = strings.TrimPrefix(fn, ".")
-			_ = i
 			return fn
 		}
 	}
